@@ -22,7 +22,7 @@ Theorem step_inv o s i a s' : ords_ok o = true → Inv s → tstep o s i a = Som
 Proof.
   intros Hok HI Hs. unfold tstep in Hs.
   destruct (ths s !! i) as [th|] eqn:Hth; simpl in Hs; [|done].
-  destruct (t_mic th) eqn:Hmic; destruct a as [j C|j|j|j C|j|j|j k|k]; try done.
+  destruct (t_mic th) eqn:Hmic; destruct a as [j C|j|j|j C|j|j|j k|k|j1 j2]; try done.
   - (* slice *)
     destruct (t_hs th !! j) as [h|] eqn:Hj; simpl in Hs; [|done].
     destruct (h_mut h) eqn:Hm; [done|]. destruct (decide (C ⊆ h_cells h)); [|done].
@@ -51,6 +51,12 @@ Proof.
     destruct (t_hs th !! j) as [h|] eqn:Hj; simpl in Hs; [|done]. destruct (h_mut h); [|done].
     destruct (freed s) eqn:Hfr; [done|]. destruct (msgs s !! k) as [m|] eqn:Hk; simpl in Hs; [|done].
     destruct (decide (t_seen th ≤ k)); [|done]. simplify_eq. by eapply try_reclaim_inv.
+  - (* unsplit *)
+    destruct (t_hs th !! j1) as [h1|] eqn:Hj1; simpl in Hs; [|done]. destruct (t_hs th !! j2) as [h2|] eqn:Hj2; simpl in Hs; [|done].
+    destruct (decide (j1 = j2)); [done|]. destruct (h_mut h1) eqn:Hm1; [|done]. destruct (h_mut h2) eqn:Hm2; [|done]. cbn [andb] in Hs.
+    destruct (freed s) eqn:Hfr; [done|].
+    pose proof (unsplit_inv o s i th j1 j2 h1 h2 Hok HI Hth Hmic Hj1 Hj2 ltac:(done) Hm1 Hm2 Hfr) as H.
+    unfold rmw in *. simpl in *. by simplify_eq.
   - (* load after the last decrement *)
     destruct (freed s) eqn:Hfr; [done|]. destruct (msgs s !! k) as [m|] eqn:Hk; simpl in Hs; [|done].
     destruct (decide (t_seen th ≤ k)); [|done]. simplify_eq. by eapply dropload_inv.
@@ -83,7 +89,7 @@ Proof.
   destruct (ths s !! i) as [th|] eqn:Hth; [|done]. cbn [mbind option_bind].
   assert (Hnf : ∀ j h, t_hs th !! j = Some h → freed s = false).
   { intros j h Hj. eapply held_not_freed; eauto. by eapply held_pos_lookup. }
-  destruct (t_mic th) eqn:Hmic; destruct a as [j C|j|j|j C|j|j|j k|k]; try done;
+  destruct (t_mic th) eqn:Hmic; destruct a as [j C|j|j|j C|j|j|j k|k|j j2]; try done;
     try (destruct (t_hs th !! j) as [h|] eqn:Hj; cbn [mbind option_bind]; [|done]; pose proof (Hnf _ _ Hj) as Hfr).
   - destruct (h_mut h); [done|]. destruct (decide _); [|done]. rewrite Hfr. unfold rmw. done.
   - destruct (access_ok s i th j h false HI Hth Hj ltac:(done)) as [s1 ->]. done.
@@ -92,6 +98,7 @@ Proof.
   - done.
   - rewrite Hfr. unfold rmw. done.
   - destruct (h_mut h); [|done]. rewrite Hfr. destruct (msgs s !! k); cbn [mbind option_bind]; [|done]. destruct (decide _); done.
+  - destruct (t_hs th !! j2) as [h2|]; cbn [mbind option_bind]; [|done]. destruct (decide _); [done|]. destruct (_ && _); [|done]. rewrite Hfr. unfold rmw. done.
   - destruct (closer_is_me _ _ _ HI Hth ltac:(by rewrite Hmic)) as (-> & _).
     destruct (msgs s !! k); cbn [mbind option_bind]; [|done]. destruct (decide _); done.
   - destruct (final_ok s i th (t_hs th) Idle HI Hth ltac:(by rewrite Hmic) (closer_pub _ _ _ HI Hth ltac:(by right))) as (s1 & -> & _). done.
@@ -151,3 +158,8 @@ Proof.
   - intros [|[|i]] p j h [|[|i']] p' j' h' Hne Hp Hh Hp' Hh' Hm; simplify_eq/=;
       apply lookup_singleton_Some in Hh as [<- <-]; apply lookup_singleton_Some in Hh' as [<- <-]; simpl; try done; set_solver.
 Qed.
+
+(* unsplit is enabled: a thread holding both BytesMut halves merges them (the step exists and is a plain state, not Race / UAF) *)
+Example unsplit_enabled o : ∃ s', tstep o (init_state {[0; 1; 2; 3]}
+  [ ({[ 0 := {| h_cells := {[0; 1]}; h_mut := true |}; 1 := {| h_cells := {[2; 3]}; h_mut := true |} ]}, 2) ]) 0 (AUnsplit 0 1) = Some (St s').
+Proof. eexists. unfold tstep, init_state. simpl. rewrite lookup_insert. simpl. rewrite lookup_insert_ne by done. rewrite lookup_singleton. simpl. unfold rmw. simpl. reflexivity. Qed.
